@@ -91,6 +91,8 @@ def fmtToks : List Char → Option (List Tok)
   | [] => some []
   | '{' :: '}' :: rest => (fmtToks rest).map (.grp :: ·)
   | '{' :: ':' :: 'd' :: '}' :: rest => (fmtToks rest).map (.digits :: ·)
+  -- the one other specification the code uses (`{:.3f}`): any non-integer specification is a `(.+?)`
+  | '{' :: ':' :: '.' :: '3' :: 'f' :: '}' :: rest => (fmtToks rest).map (.grp :: ·)
   | c :: rest =>
     if c = '{' ∨ c = '}' then none
     else (fmtToks rest).map ((if c = ' ' then .optSpace else .lit c) :: ·)
@@ -253,6 +255,149 @@ def smParseAll : List String → E (List SMDom)
 def smFromQualifier (q : List String) : E (List SMDom) := do
   let ds ← smParseAll q
   pure (smAdd [] ds)
+
+/-! ### type II PKS annotation of a protocluster -/
+
+/-- `T2PKSQualifier`; `weights` is `molecular_weights` in dictionary order with the weight as the text `f"{w:.3f}"` -/
+structure T2 where
+  starters : List String
+  elongations : List String
+  classes : List String
+  weights : List (String × String)
+deriving DecidableEq, Repr, Inhabited
+
+/-- `WEIGHT_TEMPLATE = "{} (Da): {:.3f}"` -/
+def t2WeightFmt : List Tok := [.grp, .optSpace, .lit '(', .lit 'D', .lit 'a', .lit ')', .lit ':', .optSpace, .grp]
+
+def t2WeightStr (e : String × String) : String := String.ofList (render t2WeightFmt [e.1.toList, e.2.toList])
+
+/-- `T2PKSQualifier.to_biopython_qualifiers` -/
+def T2.toQuals (t : T2) : Quals :=
+  let q : Quals := [("t2pks_starter_units", t.starters)]
+  let q := if t.elongations.isEmpty then q
+    else Q.set (Q.set q "t2pks_malonyl_elongations" t.elongations) "t2pks_molecular_weights" (t.weights.map t2WeightStr)
+  if t.classes.isEmpty then q else Q.set q "t2pks_product_classes" t.classes
+
+/-- `d[k] = v` for a dictionary of strings -/
+def dictSet : List (String × String) → String → String → List (String × String)
+  | [], k, v => [(k, v)]
+  | (k', v') :: rest, k, v => if k' = k then (k, v) :: rest else (k', v') :: dictSet rest k v
+
+/-- the loop over the written weights -/
+def t2ParseWeights : List String → List (String × String) → E (List (String × String))
+  | [], acc => pure acc
+  | s :: rest, acc =>
+    match rx t2WeightFmt s.toList with
+    | some [c, w] => t2ParseWeights rest (dictSet acc (String.ofList c) (String.ofList w))
+    | _ => throw "value-error"
+
+/-- `T2PKSQualifier.from_biopython_qualifiers(leftovers)`: the annotation, if any, and what is left -/
+def T2.fromQuals (l : Quals) : E (Option T2 × Quals) :=
+  let starters := (Q.get? l "t2pks_starter_units").getD []
+  let l := Q.erase l "t2pks_starter_units"
+  if starters.isEmpty then pure (none, l)
+  else
+    let elongations := (Q.get? l "t2pks_malonyl_elongations").getD []
+    let l := Q.erase l "t2pks_malonyl_elongations"
+    let raw := (Q.get? l "t2pks_molecular_weights").getD []
+    let l := Q.erase l "t2pks_molecular_weights"
+    let classes := (Q.get? l "t2pks_product_classes").getD []
+    let l := Q.erase l "t2pks_product_classes"
+    match t2ParseWeights raw [] with
+    | .error e => throw e
+    | .ok weights =>
+      -- the constructor: elongations and weights come together
+      if elongations.isEmpty != weights.isEmpty then throw "value-error"
+      else pure (some ⟨starters, elongations, classes, weights⟩, l)
+
+/-! ### Pfam identifier, `db_xref` and gene ontology terms of a `PFAMDomain` -/
+
+/-- what `PFAMDomain` holds besides the `Domain` attributes -/
+structure PfamX where
+  description : String
+  /-- `PF` and five digits -/
+  identifier : String
+  version : Option Int := none
+  /-- `gene_ontologies.go_entries` in the order the terms were added -/
+  go : Option (List (String × String)) := none
+deriving DecidableEq, Repr, Inhabited
+
+/-- `full_identifier` -/
+def PfamX.fullId (p : PfamX) : String :=
+  match p.version with
+  | some v => if v = 0 then p.identifier else String.ofList (p.identifier.toList ++ '.' :: intChars v)
+  | none => p.identifier
+
+def insertGo (e : String × String) : List (String × String) → List (String × String)
+  | [] => [e]
+  | y :: ys => if e.1 < y.1 then e :: y :: ys else y :: insertGo e ys
+/-- `sorted(go_entries.items())` (ids are distinct: only the id decides) -/
+def sortGo (g : List (String × String)) : List (String × String) := g.foldl (fun acc e => insertGo e acc) []
+
+/-- `f"{go_id}: {go_description}"` -/
+def goStr (e : String × String) : String := String.ofList (e.1.toList ++ ':' :: ' ' :: e.2.toList)
+
+/-- the three qualifiers `PFAMDomain.to_biopython` adds -/
+def PfamX.quals (p : PfamX) : Quals :=
+  match p.go with
+  | some g =>
+    [("description", [p.description]), ("db_xref", p.fullId :: sortStrs (g.map (·.1))), ("gene_ontologies", (sortGo g).map goStr)]
+  | none => [("description", [p.description]), ("db_xref", [p.fullId])]
+
+/-- `text.partition(": ")` when the separator is there -/
+def partitionColonSpace : List Char → Option (List Char × List Char)
+  | ':' :: ' ' :: rest => some ([], rest)
+  | c :: rest => (partitionColonSpace rest).map fun (a, b) => (c :: a, b)
+  | [] => none
+
+/-- `GOQualifier.from_biopython` -/
+def goFromQualifier : List String → List (String × String) → E (List (String × String))
+  | [], acc => pure acc
+  | s :: rest, acc =>
+    match partitionColonSpace s.toList with
+    | some (i, d) => goFromQualifier rest (dictSet acc (String.ofList i) (String.ofList d))
+    | none => throw "value-error"
+
+/-- the identifier checks of `PFAMDomain.__init__`: optional `.version`, then `PF` and five decimal digits -/
+def parsePfamName (name : String) : E (String × Option Int) :=
+  let cs := name.toList
+  let ident := cs.takeWhile (· != '.')
+  let rest := cs.dropWhile (· != '.')
+  let version : E (Option Int) :=
+    match rest with
+    | [] => pure none
+    | _ :: v => match parseInt v with
+      | some i => pure (some i)
+      | none => throw "value-error"
+  match version with
+  | .error e => throw e
+  | .ok v =>
+    if ident.length = 7 ∧ ident.take 2 = ['P', 'F'] ∧ (ident.drop 2).all Char.isDigit then pure (String.ofList ident, v)
+    else throw "value-error"
+
+/-- the part of `PFAMDomain.from_biopython` that reads these qualifiers: description, identifier and version,
+    gene ontology terms, and the `db_xref` values that stay among the leftovers -/
+def PfamX.read (q : Quals) : E (PfamX × List String) :=
+  match Q.get? q "description" with
+  | none => throw "KeyError"
+  | some [] => throw "IndexError"
+  | some (description :: _) =>
+    -- `for i, ref in enumerate(xref): if ref.startswith("PF"): name = ref; xref.pop(i); break`: the first entry goes either way
+    match (Q.get? q "db_xref").getD [] with
+    | [] => throw "value-error"
+    | first :: others =>
+      if !(['P', 'F'].isPrefixOf first.toList) then throw "value-error"
+      else if description.isEmpty then throw "value-error"
+      else
+        match parsePfamName first with
+        | .error e => throw e
+        | .ok (ident, version) =>
+          match (Q.get? q "gene_ontologies").getD [] with
+          | [] => pure (⟨description, ident, version, none⟩, others)
+          | terms =>
+            match goFromQualifier terms [] with
+            | .error e => throw e
+            | .ok g => pure (⟨description, ident, version, some g⟩, others)
 
 /-! ### domains and motifs: `AntismashFeature` → `Domain` → `AntismashDomain` / `CDSMotif` -/
 
